@@ -739,6 +739,145 @@ class CondGen:
         return lines
 
 
+# ------------------------------------------------------------------ stringified pastes with empty operands
+class StrPasteGen:
+    """`#define M(p,q,r) ...` whose replacement mixes tokens, parameters and `##` (operands: parameters
+    and identifier/number tokens, so every paste is valid); arguments are empty with probability 1/2; the
+    expansion is stringified through `XS(M(..))` (argument macro-replaced, then `#`), which shows the white
+    space the expansion carries between its tokens, and is also used directly."""
+
+    def __init__(self, rng):
+        self.r = rng
+        self.stats = {}
+
+    def hit(self, k):
+        self.stats[k] = self.stats.get(k, 0) + 1
+
+    def gen_case(self):
+        r = self.r
+        lines = [{"k": "define", "name": "S", "params": ["a"], "variadic": False, "repl": [("#", 0), ("a", 0)]},
+                 {"k": "define", "name": "XS", "params": ["a"], "variadic": False,
+                  "repl": [("S", 0), ("(", 0), ("a", 0), (")", 0)]}]
+        names = []
+        for mi in range(1 + r.below(2)):
+            nm = "M%d" % mi
+            np_ = 1 + r.below(3)
+            ps = ["p", "q", "r"][:np_]
+            repl, n_items, prev_operand = [], 2 + r.below(5), False
+            for j in range(n_items):
+                k = r.below(10)
+                if k < 4:
+                    repl.append((r.choice(ps), r.below(2))); operand = True
+                elif k < 7:
+                    repl.append((r.choice(["x", "z", "w", "1", "v2"]), r.below(2))); operand = True
+                else:
+                    repl.append((r.choice(["[", "]", "+", ";"]), r.below(2))); operand = False
+                if operand and j + 1 < n_items and r.chance(1, 2):
+                    # `##` followed by another operand
+                    repl.append(("##", r.below(2)))
+                    repl.append((r.choice(ps) if r.chance(2, 3) else r.choice(["x", "z", "7"]), r.below(2)))
+                    self.hit("paste")
+            lines.append({"k": "define", "name": nm, "params": ps, "variadic": False, "repl": fix_ws(repl)})
+            names.append((nm, np_))
+        for _ in range(1 + r.below(3)):
+            nm, np_ = r.choice(names)
+            call = [(nm, 0), ("(", 0)]
+            for i in range(np_):
+                if i:
+                    call.append((",", 0))
+                k = r.below(6)
+                if k < 3:
+                    self.hit("empty_arg")
+                elif k < 5:
+                    call.append((r.choice(["a", "b", "5"]), r.below(2)))
+                else:
+                    call += [(r.choice(["a", "b"]), r.below(2)), (r.choice(["c", "9"]), 1)]
+            call.append((")", r.below(2)))
+            form = r.below(4)
+            if form == 0:
+                toks = [("XS", 0), ("(", 0)] + call + [(")", 0)]
+            elif form == 1:
+                toks = [("XS", 0), ("(", 0), (call[0][0], 1)] + call[1:] + [(")", 1)]
+            elif form == 2:
+                toks = [("XS", 0), ("(", 0), ("k", 0)] + [(call[0][0], 1)] + call[1:] + [("k", 1), (")", 0)]
+            else:
+                toks = call
+            lines.append({"k": "text", "toks": fix_ws(toks + [(";", 0)])})
+        return lines
+
+
+# ------------------------------------------------------------------ argument lists closed outside a replacement list
+class OpenCallGen:
+    """an invocation `callee ( args )` is cut at a random place: the first part ends the replacement list of
+    an object-like macro O1, reached through 1-3 levels (O2 -> O1, O3 -> O2, optionally with other tokens before
+    and after, or through a function-like macro without parameters), the rest follows in the text
+    (6.10.3.4p1: the replacement is rescanned together with the rest of the source file).  The Lean
+    specification does not cover this form; the reference is gcc alone."""
+
+    def __init__(self, rng):
+        self.r = rng
+        self.stats = {}
+
+    def hit(self, k):
+        self.stats[k] = self.stats.get(k, 0) + 1
+
+    def simple_arg(self):
+        r = self.r
+        k = r.below(6)
+        if k == 0:
+            return []
+        if k < 3:
+            return [r.choice(["1", "2", "n", "x"])]
+        if k == 3:
+            return ["neg", "(", r.choice(["3", "y"]), ")"]
+        if k == 4:
+            return ["(", "1", ",", "2", ")"]
+        return [r.choice(["n", "4"]), r.choice(["+", "*"]), r.choice(["y", "5"])]
+
+    def gen_case(self):
+        r = self.r
+
+        def D(nm, repl, params=None, variadic=False):
+            return {"k": "define", "name": nm, "params": params, "variadic": variadic,
+                    "repl": fix_ws([(sp, 1 if i else 0) for i, sp in enumerate(repl)])}
+        lines = [D("add", ["[", "a", "+", "b", "]"], ["a", "b"]), D("neg", ["<", "a", ">"], ["a"]),
+                 D("var", ["{", "a", "|", "__VA_ARGS__", "}"], ["a"], True)]
+        callee, nargs = r.choice([("add", 2), ("neg", 1), ("var", 2 + r.below(2))])  # (C11: a variable argument is required)
+        inv = [callee, "("]
+        for i in range(nargs):
+            if i:
+                inv.append(",")
+            inv += self.simple_arg()
+        inv.append(")")
+        cut = 1 + r.below(len(inv) - 1)
+        self.hit("cut_after_name" if cut == 1 else ("cut_after_paren" if cut == 2 else "cut_inside_args"))
+        head, rest = inv[:cut], inv[cut:]
+        lead = [r.choice(["p", "7"])] if r.chance(1, 3) else []
+        lines.append(D("O1", lead + head))
+        depth = 1 + r.below(3)
+        self.hit("levels_%d" % depth)
+        top = "O1"
+        for lv in range(2, depth + 1):
+            before = [r.choice(["q", "8"])] if r.chance(1, 3) else []
+            after = [r.choice(["m", "6"])] if (cut > 2 and r.chance(1, 4)) else []   # becomes part of the argument
+            if r.chance(1, 5):
+                lines.append(D("O%d" % lv, before + [top] + after, []))
+                top_use = ["O%d" % lv, "(", ")"]
+            else:
+                lines.append(D("O%d" % lv, before + [top] + after))
+                top_use = ["O%d" % lv]
+            top = "O%d" % lv
+        use = top_use if depth > 1 else ["O1"]
+        tail = r.choice([[";"], ["t", ";"], ["(", "0", ")", ";"], ["neg", "(", "1", ")", ";"]])
+        toks = [(sp, 1 if i else 0) for i, sp in enumerate(["s"] + use + rest + tail)]
+        if r.chance(1, 4) and len(rest) > 1:
+            j = len(use) + 1 + 1 + r.below(len(rest) - 1)
+            toks = toks[:j] + [("\n", 0)] + toks[j:]
+            self.hit("rest_on_next_line")
+        lines.append({"k": "text", "toks": fix_ws(toks)})
+        return lines
+
+
 # ------------------------------------------------------------------ line ends x directives (small scope, enumerated)
 def line_end_cases(full):
     """every kind of line end (function-like macro name without a call -- directly, as the end of an
